@@ -26,8 +26,8 @@ def extract(g, X):
 
     def u_rounds():
         b = X.fn_body(fp, "compute_u_rev_3_4")
-        m = re.search(r"for\s+\w+\s+in\s+(\d+)u8\s*\.\.=\s*(\d+)", b)
-        return m.group(1), m.group(2)
+        m = re.search(r"for\s+\w+\s+in\s+(" + X.BYTE + r")\s*\.\.=\s*(" + X.BYTE + r")", b)
+        return str(X.int_value(m.group(1))), str(X.int_value(m.group(2)))
     g.attempt([("crypt_u_round_first", "N"), ("crypt_u_round_last", "N")], "crypt.rs:compute_u_rev_3_4", u_rounds)
 
     def user_kd():
@@ -61,7 +61,21 @@ def extract(g, X):
         v4 = re.search(r"(\d+)\s*\.\.=\s*(\d+)\s*=>\s*\{\s*let\s+\(\w+,\s*\w+\)\s*=\s*crypt_filter\(\w+,\s*\w+\.default_crypt_filter\.as_ref\(\)\)\?;"
                        r"\s*let\s+\(\w+,\s*\w+\)\s*=\s*crypt_filter\(\w+,\s*\w+\.string_crypt_filter\.as_ref\(\)\)\?;", fp)
         v5 = re.search(r"CryptMethod::AESV3\s+if\s+\w+\.v\s*==\s*(\d+)", fp)
-        lv = re.search(r"!\((\d+)\s*\.\.=\s*(\d+)\)\.contains\(&\w+\)", fp)
+        # the admissible revisions: the rejecting condition on `let level = dict.r;` is evaluated for 0..31
+        lvar = re.search(r"let\s+(\w+)\s*=\s*\w+\.r\s*;", fp).group(1)
+        rej = []
+        for c, blk, _ in X.if_conditions(fp):
+            if re.search(r"(?<![\w.])" + lvar + r"(?!\w)", c) and re.match(r"\s*(err!|bail!|return\s+Err)", blk):
+                try:
+                    rej.append(X.guard_values(c, lvar, src, scopes=[fp], domain=range(32)))
+                except ValueError:
+                    pass                   # a condition that passes the revision on to something else (a password check)
+        if len(rej) != 1:
+            raise ValueError("revision check: %d conditions" % len(rej))
+        ok = sorted(set(range(32)) - rej[0])
+        if not ok or ok != list(range(ok[0], ok[-1] + 1)):
+            raise ValueError("admissible revisions are not a range")
+        lv = re.match(r"(\d+) (\d+)", "%d %d" % (ok[0], ok[-1]))
         rc = re.search(r"if\s+\w+\s*<=\s*(\d+)\s*\{\s*let\s+\w+\s*=\s*\w+\s+as\s+usize\s*/\s*8", fp)
         ul = re.search(r"let\s+(\w+)\s*=\s*\w+\.u\.as_bytes\(\);\s*if\s+\1\.len\(\)\s*!=\s*(\d+)", fp)
         ol = re.search(r"let\s+(\w+)\s*=\s*\w+\.o\.as_bytes\(\);\s*if\s+\1\.len\(\)\s*!=\s*(\d+)", fp)
